@@ -223,18 +223,20 @@ def split_reply(line):
     return line, "(oracle none)"
 
 
-def corr_pass(chk, mode, lines, label, known_matcher=None, nontrivial=None, model_lines=None, engine="rs"):
+def corr_pass(chk, mode, lines, label, known_matcher=None, nontrivial=None, model_lines=None, engine="rs", oracle_filter=None):
     """Run impl and model on the same request lines; compare replies; consult the impl-side oracle.
     Returns stats dict. Classification (DESIGN.md §6):
       reply differs + oracle fail  -> violation with the request as failing input
       reply differs + oracle ok    -> tie broken; reported once as no-failing-input-found unless a failing input exists
-      reply equal   + oracle fail  -> property false of model and code: known finding (if recorded) else violation
+      reply equal   + oracle fail  -> property false of model and code: known finding (if the request violates the
+                                      recorded hypothesis of an open finding) else violation
+    oracle_filter(oracle_text) -> None if this property's part of the oracle is ok, else the relevant failure text.
+    known_matcher(req, impl_reply, oracle_text, hyps_text) -> description string of the matching open finding or None.
     """
     impl, rc, err = (chk.run_impl_js if engine == "js" else chk.run_impl)(mode, lines)
     model, rc2, err2 = chk.run_model(model_lines if model_lines is not None else lines)
     stats = {"requests": len(lines), "mismatch": 0, "oracle_fail": 0, "known": 0, "nontrivial": 0}
     if len(impl) != len(lines):
-        # a crash (abort/stack overflow) killed the impl process: bisect to the offending line
         bad = len(impl)
         chk.violation(f"{label}:impl-crash", f"{lines[bad] if bad < len(lines) else '<eof>'}\n; impl process ended early rc={rc}\n; stderr: {err[-500:]!r}")
         stats["crash"] = 1
@@ -246,35 +248,103 @@ def corr_pass(chk, mode, lines, label, known_matcher=None, nontrivial=None, mode
     found_input = False
     for req, il, ml in zip(lines, impl, model):
         ir, orc = split_reply(il)
+        mr, hyps = (ml.split("\t", 1) + [""])[:2] if "\t" in ml else (ml, "")
         if nontrivial is None or nontrivial(req, ir):
-            h = hashlib.sha1(req.encode()).hexdigest()
-            if h not in distinct:
-                distinct.add(h)
-        ofail = not orc.startswith("(oracle ok") and not orc.startswith("(oracle none")
+            distinct.add(hashlib.sha1(req.encode()).hexdigest())
+        if oracle_filter is not None:
+            f = oracle_filter(orc)
+            ofail = f is not None
+            orc_rel = f if ofail else "(oracle ok)"
+        else:
+            ofail = not orc.startswith("(oracle ok") and not orc.startswith("(oracle none")
+            orc_rel = orc
         if ofail:
             stats["oracle_fail"] += 1
-        if ir != ml.strip():
+        if ir != mr.strip():
             stats["mismatch"] += 1
             if ofail:
                 found_input = True
-                chk.violation(f"{label}:impl-differs-from-model+property-oracle-fails", f"{req}\n; impl:   {ir}\n; model:  {ml}\n; oracle: {orc}")
+                chk.violation(f"{label}:impl-differs-from-model+property-oracle-fails", f"{req}\n; impl:   {ir}\n; model:  {mr}\n; oracle: {orc_rel}")
             else:
-                tie_broken.append((req, ir, ml))
+                tie_broken.append((req, ir, mr))
         elif ofail:
-            k = known_matcher(req, ir, orc) if known_matcher else None
+            k = known_matcher(req, ir, orc_rel, hyps) if known_matcher else None
             if k:
                 stats["known"] += 1
                 if k not in chk.known_seen:
                     chk.known_seen.append(k)
             else:
                 found_input = True
-                chk.violation(f"{label}:property-oracle-fails", f"{req}\n; impl:   {ir}\n; model:  {ml}\n; oracle: {orc}")
+                chk.violation(f"{label}:property-oracle-fails", f"{req}\n; impl:   {ir}\n; model:  {mr}\n; oracle: {orc_rel}\n; hypotheses violated: {hyps}")
     if tie_broken and not found_input:
-        req, ir, ml = tie_broken[0]
-        chk.violation(f"{label}:correspondence-broken", f"{req}\n; impl:   {ir}\n; model:  {ml}\n; correspondence op `{label}` no longer checks ({len(tie_broken)} requests differ); the impl-side property oracle found no failing input", found_input=False)
+        req, ir, mr = tie_broken[0]
+        chk.violation(f"{label}:correspondence-broken", f"{req}\n; impl:   {ir}\n; model:  {mr}\n; correspondence op `{label}` no longer checks ({len(tie_broken)} requests differ); the impl-side property oracle found no failing input", found_input=False)
     elif tie_broken:
         chk.coverage.setdefault("tie_broken_samples", []).append(tie_broken[0][0][:400])
     stats["nontrivial"] = len(distinct)
     if lines:
         chk.coverage["samples"].append({"op": label, "request": lines[0][:600], "impl_reply": split_reply(impl[0])[0][:300] if impl else None})
     return stats
+
+
+def tag_filter(prefixes):
+    """oracle_filter keeping only the failure tags of one property, e.g. ('c03.',)"""
+    def f(orc):
+        if not orc.startswith("(oracle fail"):
+            return None
+        tags = [t for t in orc[len("(oracle fail"):].rstrip(")").split() if any(t.startswith(p) for p in prefixes)]
+        return "(oracle fail " + " ".join(tags) + ")" if tags else None
+    return f
+
+
+def generic_run(chk, modules, audit, passes, trusted, open_obl, rule, translators=()):
+    """Common skeleton: (T) translators -> lake build + axiom audit -> correspondence passes -> verdict.
+    passes: list of callables(chk) -> stats"""
+    tmsgs = []
+    tok = True
+    for t in translators:
+        ok1, msg = chk.translate(t)
+        tok = tok and ok1; tmsgs.append(f"{t}: {msg}")
+    ok, out = chk.build_lean(modules) if tok else (False, "\n".join(tmsgs))
+    aok, bad, banned, txt = chk.audit_lean(audit) if ok else (False, [("<build failed>", [])], [], out)
+    chk.trusted += trusted
+    chk.open_obligations += open_obl
+    stats = [p(chk) for p in passes]
+    if not (ok and aok):
+        found = any(not s.endswith("no-failing-input-found") for _, s in chk.violations)
+        if not found:
+            chk.violation("lean-obligation-broken", f"; translators: {tmsgs}\n; theorem modules {modules} / audit {audit} no longer check\n; not-accepted: {bad}\n; banned: {banned}\n" + "\n".join("; " + l for l in (out if not ok else txt).split("\n")[-30:]), found_input=False)
+    ev = sum(s["requests"] for s in stats)
+    return chk.finish("proof", {
+        "corr_evaluations": ev, "evaluations": ev,
+        "distinct_nontrivial": sum(s["nontrivial"] for s in stats),
+        "corr_mismatches": sum(s["mismatch"] for s in stats),
+        "corr_oracle_failures": sum(s["oracle_fail"] for s in stats),
+        "corr_known_finding_hits": sum(s["known"] for s in stats),
+        "corr_rule": rule,
+    })
+
+
+def known_by_hyp(chk, mapping):
+    """known_matcher from {hypothesis name: finding id}: an oracle failure is a manifestation of an open finding
+    when the request violates that finding's hypothesis (evaluated by the Lean driver) and model == impl."""
+    open_ids = {k["id"]: k for k in chk.known}
+    def m(req, ir, orc, hyps):
+        for hyp, fid in mapping.items():
+            if hyp in hyps and fid in open_ids:
+                k = open_ids[fid]
+                tags = k.get("oracle_tags")
+                if tags and not all(any(t.startswith(p) for p in tags) for t in orc[len("(oracle fail"):].rstrip(")").split()):
+                    continue
+                return k["what"]
+        return None
+    return m
+
+
+def corpus_lines(pid):
+    d = os.path.join(VERIF, "corpus", pid)
+    lines = []
+    if os.path.isdir(d):
+        for f in sorted(os.listdir(d)):
+            lines += [l for l in open(os.path.join(d, f)).read().split("\n") if l.strip() and not l.startswith(";")]
+    return lines
